@@ -311,18 +311,20 @@ Proof. destruct st; cbn; tauto. Qed.
 Definition all_implicit_sites_checked : Prop :=
   forall st, site_implicit st = true -> site_checked st = true.
 
-Lemma sites_refuted : ~ all_implicit_sites_checked.
-Proof. intros H. specialize (H SRet1 eq_refl). vm_compute in H. discriminate. Qed.
+Lemma sites_all_checked : all_implicit_sites_checked.
+Proof. intros st H. destruct st; try discriminate H; vm_compute; reflexivity. Qed.
 
-Definition unchecked_today (st : site) : bool :=
-  match st with SRet1 | SArrInit | SRecInit | SRecArrInit => true | _ => false end.
-
-Lemma sites_partial st : site_implicit st = true -> site_checked st = negb (unchecked_today st).
-Proof. destruct st; vm_compute; congruence. Qed.
+(* the explicit cast is the only unchecked site *)
+Lemma site_checked_iff st : site_checked st = site_implicit st.
+Proof. destruct st; vm_compute; reflexivity. Qed.
 
 Lemma convert_at_correct m st s d x : wf_ity s -> wf_ity d -> in_range s x -> site_checked st = true ->
   convert_at m st s d x = if in_rangeb d x then Oval x else Opanic MSG_NARROW.
 Proof. intros Hs Hd Hx C. unfold convert_at. rewrite C. apply implicit_conv_correct; assumption. Qed.
+
+Lemma convert_at_implicit m st s d x : wf_ity s -> wf_ity d -> in_range s x -> site_implicit st = true ->
+  convert_at m st s d x = if in_rangeb d x then Oval x else Opanic MSG_NARROW.
+Proof. intros Hs Hd Hx Hi. apply convert_at_correct; try assumption. apply sites_all_checked; exact Hi. Qed.
 
 Lemma convert_at_unchecked st s d x : wf_ity d -> site_checked st = false ->
   convert_at Gnu st s d x = Oval (wrap d x).
@@ -400,7 +402,7 @@ Proof. repeat split. Qed.
 Example ex_lib : lib_access Gnu SeqRemove I8 0 5 1 = Opanic MSG_LIB /\ lib_access Gnu VecAt I8 (-1) 5 1 = Opanic MSG_NARROW
   /\ lib_access Gnu SeqAt U8 6 5 1 = Oval 0.
 Proof. repeat split. Qed.
-Example ex_sites : site_checked SRet1 = false /\ site_checked SRetDefer = true /\ site_checked SArrInit = false.
+Example ex_sites : site_checked SRet1 = true /\ site_checked SRetDefer = true /\ site_checked SArrInit = true /\ site_checked SCast = false.
 Proof. repeat split. Qed.
 
 (* ---------------------------------------------------------------- the tie, as one statement *)
